@@ -9,6 +9,7 @@ CONSTANTS
   AnnModes = {"none"}
   WithProxyDel = FALSE
   CfiLayouts = {"none"}
+  Isa = "x64"
   Emit = FALSE
 INVARIANT Inv
 CHECK_DEADLOCK FALSE
